@@ -315,10 +315,22 @@ pub fn run(args: &Args, rec: &mut Recorder) {
             api_built_case(rng, rec, k);
             return None;
         }
+        if case % 20 == 13 {
+            bulk_push_case(rng, rec, k);
+            return None;
+        }
         if case % 20 == 7 {
             // IF_DATA that is interpreted through the A2ML block of the file (generated definition,
             // conforming instances with comments inside)
+            // one document in three has float members beyond the f32 range (not decodable with the
+            // definition, kept in generic form; still a legal document that has to survive the cycles)
+            let huge = rng.chance(1, 3);
+            vcommon::a2mlgen::HUGE_FLOATS.with(|h| h.set(huge));
             let (text, _flat, _n) = crate::c18::gen_conforming_document(rng);
+            vcommon::a2mlgen::HUGE_FLOATS.with(|h| h.set(false));
+            if huge && (text.contains("e38") || text.contains("E+38") || text.contains("e39") || text.contains("e300")) {
+                rec.bump("a2ml_docs_with_float_beyond_f32");
+            }
             rec.eval();
             rec.nontrivial(text.as_bytes());
             rec.bump("entry.a2ml_interpreted_if_data");
@@ -490,6 +502,7 @@ pub fn run(args: &Args, rec: &mut Recorder) {
     rec.floor("entry.fragment", 1);
     rec.floor("entry.a2ml_interpreted_if_data", 5);
     rec.floor("api_built_models", 1);
+    rec.floor("bulk_push.group_over_32", 2);
     // every element kind of the reference grammar must have occurred
     for e in &g.elements {
         for t in &e.tags {
@@ -498,6 +511,61 @@ pub fn run(args: &Args, rec: &mut Recorder) {
             }
             rec.floor(&format!("kind.{t}"), 1);
         }
+    }
+}
+
+/// A loaded module whose element kinds are interleaved in the file (so the writer's group is not in
+/// writer order when it is collected), plus many new elements of one kind pushed through the API:
+/// the new elements must be written, and reloaded, in list order.
+fn bulk_push_case(rng: &mut Rng, rec: &mut Recorder, k: usize) {
+    use std::fmt::Write as _;
+    rec.eval();
+    rec.bump("bulk_push_cases");
+    let pairs = 1 + rng.below(14) as usize;
+    let mut text = String::from("ASAP2_VERSION 1 71\n/begin PROJECT p \"\"\n/begin MODULE m \"\"\n");
+    for i in 0..pairs {
+        let _ = writeln!(text, "/begin MEASUREMENT ld_{i} \"\" UBYTE cm_{i} 0 0 0 255\n/end MEASUREMENT");
+        let _ = writeln!(text, "/begin COMPU_METHOD cm_{i} \"\" IDENTICAL \"%4.2\" \"-\"\n/end COMPU_METHOD");
+        if rng.chance(1, 3) {
+            let _ = writeln!(text, "/begin GROUP g_{i} \"\"\n/end GROUP");
+        }
+    }
+    text.push_str("/end MODULE\n/end PROJECT\n");
+    rec.nontrivial(text.as_bytes());
+    let mut m = match load_str(&text, true) {
+        Ok(Ok((m, _))) => m,
+        Ok(Err(e)) => {
+            rec.violation("interleaved document is rejected", &e.to_string(), witness_text("bulk push", &text, ""));
+            return;
+        }
+        Err((sig, detail)) => {
+            rec.violation(&sig, &detail, witness_text("bulk push", &text, ""));
+            return;
+        }
+    };
+    let n_new = 2 + rng.below(45) as usize;
+    rec.bump(if pairs * 2 + n_new > 32 { "bulk_push.group_over_32" } else { "bulk_push.group_up_to_32" });
+    let kind = rng.below(3);
+    for j in 0..n_new {
+        let name = format!("new_{j}");
+        match kind {
+            0 => {
+                m.project.module[0].measurement.push(crate::api::measurement(rng, name));
+            }
+            1 => {
+                m.project.module[0].compu_method.push(crate::api::compu_method(rng, name));
+            }
+            _ => {
+                m.project.module[0].characteristic.push(crate::api::characteristic(rng, name));
+            }
+        }
+    }
+    if let Err((sig, detail)) = cycle_check(&m, k, "") {
+        rec.violation(
+            &format!("{sig} [loaded interleaved module + {} pushed]", if n_new > 8 { "many" } else { "few" }),
+            &detail,
+            witness_text("bulk push", &text, &format!("{n_new} new elements of kind {kind} pushed through the API")),
+        );
     }
 }
 
